@@ -5,6 +5,6 @@ cd "$(dirname "$0")/.."
 P=4; [ "$1" = "-P" ] && { P=$2; shift 2; }
 pat=${1:-*}
 mkdir -p /tmp/verif_seedall
-run() { n=$(basename $1); id=${n%%-*}; tools/seedcheck.py $id seeded/$n --keep --name $n > /tmp/verif_seedall/$n.log 2>&1; echo "$n $(grep -E '^(check |NOT CONF|PATCH)' /tmp/verif_seedall/$n.log | tr '\n' ' ')"; }
+run() { n=$(basename $1); id=${n%%-*}; extra=""; [ -f seeded/$n/checks.txt ] && extra="--checks $(cat seeded/$n/checks.txt)"; tools/seedcheck.py $id seeded/$n $extra --keep --name $n > /tmp/verif_seedall/$n.log 2>&1; echo "$n $(grep -E '^(check |NOT CONF|PATCH)' /tmp/verif_seedall/$n.log | tr '\n' ' ')"; }
 export -f run
 ls -d seeded/$pat | xargs -P $P -I{} bash -c 'run {}'
